@@ -34,6 +34,8 @@ type (
 	I1 interface{ MI1() }
 	// I2 is implemented by *T0..*T7.
 	I2 interface{ MI2() }
+	// I0x is a distinct interface type with exactly the method set of I0: each implements the other.
+	I0x interface{ MI0() }
 	// I3 embeds I0 and I2: it implements both and is implemented by *T0 and *T1.
 	I3 interface {
 		MI0()
@@ -94,6 +96,7 @@ const (
 	IDI1     = 21
 	IDI2     = 22
 	IDI3     = 23
+	IDI0x    = 24
 	IDInt    = 70
 
 	// FirstCompositeID is the lowest id a program may give to a composite type.
@@ -134,6 +137,7 @@ var byID = map[int]reflect.Type{
 	21: ifaceT((*I1)(nil)),
 	22: ifaceT((*I2)(nil)),
 	23: ifaceT((*I3)(nil)),
+	24: ifaceT((*I0x)(nil)),
 
 	30: reflect.TypeOf([]*T0(nil)),
 	31: reflect.TypeOf([]*T1(nil)),
@@ -230,7 +234,7 @@ func Facts(id int) TypeInfo {
 			ti.Elem = e
 		}
 	}
-	for _, i := range []int{IDI0, IDI1, IDI2, IDI3} {
+	for _, i := range []int{IDI0, IDI1, IDI2, IDI3, IDI0x} {
 		if t.Implements(byID[i]) {
 			ti.Impl = append(ti.Impl, i)
 		}
@@ -264,17 +268,18 @@ var expected = func() []TypeInfo {
 	add(3, "ptr", 1, false)
 	add(4, "ptr", 2, false)
 	add(5, "iface", -1, true)
-	add(10, "ptr", -1, false, 20, 22, 23)
-	add(11, "ptr", -1, false, 20, 21, 22, 23)
+	add(10, "ptr", -1, false, 20, 22, 23, 24)
+	add(11, "ptr", -1, false, 20, 21, 22, 23, 24)
 	add(12, "ptr", -1, false, 21, 22)
 	for id := 13; id <= 17; id++ {
 		add(id, "ptr", -1, false, 22)
 	}
 	add(19, "struct", -1, false)
-	add(20, "iface", -1, false, 20)
+	add(20, "iface", -1, false, 20, 24)
 	add(21, "iface", -1, false, 21)
 	add(22, "iface", -1, false, 22)
-	add(23, "iface", -1, false, 20, 22, 23)
+	add(23, "iface", -1, false, 20, 22, 23, 24)
+	add(24, "iface", -1, false, 20, 24)
 	for n := 0; n < 8; n++ {
 		add(30+n, "slice", 10+n, false)
 	}
@@ -282,7 +287,7 @@ var expected = func() []TypeInfo {
 	add(40, "slice", 20, false)
 	add(41, "slice", 21, false)
 	add(42, "slice", 22, false)
-	add(50, "slice", 10, false, 20)
+	add(50, "slice", 10, false, 20, 24)
 	add(51, "slice", 11, false)
 	for n := 0; n < 4; n++ {
 		add(60+n, "slice", 30+n, false)
@@ -290,7 +295,7 @@ var expected = func() []TypeInfo {
 	add(64, "slice", 50, false)
 	add(65, "slice", 51, false)
 	add(70, "other", -1, false)
-	add(71, "other", -1, false, 20)
+	add(71, "other", -1, false, 20, 24)
 	add(80, "other", -1, false)
 	add(81, "other", -1, false)
 	add(82, "other", -1, false)
